@@ -440,22 +440,21 @@ def _observers_of(mod: Module) -> dict[str, tuple[Module, ast.AST]]:
     out: dict[str, tuple[Module, ast.AST]] = {}
     if "await" not in mod.src and ".exception()" not in mod.src:
         return out
-    for mod in [mod]:
-        for q, fn in mod.functions.items():
-            found = False
-            for t in [x for x in walk_shallow(fn) if isinstance(x, ast.Try)]:
-                body_awaits = [a for s in t.body for a in [s, *walk_shallow(s)] if isinstance(a, ast.Await) and _is_completion_await(a)]
-                if not body_awaits:
-                    continue
-                for h in t.handlers:
-                    if _catches_all(h) in ("all", "exception") and _terminal_write_in(h.body, mod):
-                        found = True
-            if not found:
-                exc_calls = [c for c in walk_shallow(fn) if isinstance(c, ast.Call) and isinstance(c.func, ast.Attribute) and c.func.attr == "exception" and not c.args]
-                if exc_calls and _terminal_write_in(fn.body, mod):
+    for q, fn in mod.functions.items():
+        found = False
+        for t in [x for x in walk_shallow(fn) if isinstance(x, ast.Try)]:
+            body_awaits = [a for s in t.body for a in [s, *walk_shallow(s)] if isinstance(a, ast.Await) and _is_completion_await(a)]
+            if not body_awaits:
+                continue
+            for h in t.handlers:
+                if _catches_all(h) in ("all", "exception") and _terminal_write_in(h.body, mod):
                     found = True
-            if found:
-                out[q.split(".")[-1]] = (mod, fn)
+        if not found:
+            exc_calls = [c for c in walk_shallow(fn) if isinstance(c, ast.Call) and isinstance(c.func, ast.Attribute) and c.func.attr == "exception" and not c.args]
+            if exc_calls and _terminal_write_in(fn.body, mod):
+                found = True
+        if found:
+            out[q.split(".")[-1]] = (mod, fn)
     return out
 
 
@@ -514,17 +513,16 @@ def _start_sites_of(mod: Module) -> list[tuple[Module, ast.AST, ast.Call, str]]:
     out = []
     if ".run(" not in mod.src and ".run_workflow(" not in mod.src:
         return out
-    for mod in [mod]:
-        for c in ast.walk(mod.tree):
-            if not (isinstance(c, ast.Call) and isinstance(c.func, ast.Attribute)):
-                continue
-            fn = enclosing_function(c)
-            if fn is None:
-                continue
-            if c.func.attr == "run" and any(k.arg == "run_id" for k in c.keywords):
-                out.append((mod, fn, c, "workflow.run"))
-            elif c.func.attr == "run_workflow" and fn.name != "run_workflow" and not (isinstance(c.func.value, ast.Call) and call_name(c.func.value) == "super"):
-                out.append((mod, fn, c, "runtime.run_workflow"))
+    for c in ast.walk(mod.tree):
+        if not (isinstance(c, ast.Call) and isinstance(c.func, ast.Attribute)):
+            continue
+        fn = enclosing_function(c)
+        if fn is None:
+            continue
+        if c.func.attr == "run" and any(k.arg == "run_id" for k in c.keywords):
+            out.append((mod, fn, c, "workflow.run"))
+        elif c.func.attr == "run_workflow" and fn.name != "run_workflow" and not (isinstance(c.func.value, ast.Call) and call_name(c.func.value) == "super"):
+            out.append((mod, fn, c, "runtime.run_workflow"))
     return out
 
 
